@@ -37,6 +37,9 @@ type Modules struct {
 	// converted nodes. To access the map, use the get/set/ClearEntryCache()
 	// thread-safe functions.
 	entryCache map[Node]*Entry
+	// entryBuilding is the set of nodes currently being converted by
+	// ToEntry; it is used to detect circular uses of groupings.
+	entryBuilding map[Node]bool
 	// mergedSubmodule is used to prevent re-parsing a submodule that has already
 	// been merged into a particular entity when circular dependencies are being
 	// ignored. The keys of the map are a string that is formed by concatenating
@@ -463,4 +466,26 @@ func (ms *Modules) ClearEntryCache() {
 	ms.entryCacheMu.Lock()
 	defer ms.entryCacheMu.Unlock()
 	ms.entryCache = map[Node]*Entry{}
+}
+
+// startBuilding records that ToEntry has started converting n. It returns
+// false if n is already being converted, i.e., n (indirectly) contains itself.
+func (ms *Modules) startBuilding(n Node) bool {
+	ms.entryCacheMu.Lock()
+	defer ms.entryCacheMu.Unlock()
+	if ms.entryBuilding[n] {
+		return false
+	}
+	if ms.entryBuilding == nil {
+		ms.entryBuilding = map[Node]bool{}
+	}
+	ms.entryBuilding[n] = true
+	return true
+}
+
+// doneBuilding records that ToEntry has finished converting n.
+func (ms *Modules) doneBuilding(n Node) {
+	ms.entryCacheMu.Lock()
+	defer ms.entryCacheMu.Unlock()
+	delete(ms.entryBuilding, n)
 }
